@@ -46,7 +46,7 @@ def edges_differ(v1, v2):
     return Or(cs) if cs else BoolVal(False)
 
 def part_define_type(chk, fns, decls, case):
-    NN, EE, MM, ARGS, P = chk.pick((3, 1, 2, 2, 1), (4, 2, 3, 2, 1)); rec = 2
+    NN, EE, MM, ARGS, P = chk.pick((3, 1, 2, 2, 1), (4, 1, 2, 2, 1)); rec = 2
     chk.bounds['define_type'] = {'node_slots': NN, 'edge_slots_before': EE, 'defined_types_before': MM, 'orders': 'all permutations of the present entries of `defined`'}
     eng, M_, gcell, pre_view, argterms = c06.run_op(chk, fns, decls, 'define_type', NN, EE, MM, ARGS, P, rec, part=case, hash_order=True)
     outs = [o for o in eng.out]; chk.account(eng, [c06.op_fn(eng, 'define_type')])
@@ -61,7 +61,7 @@ def part_define_type(chk, fns, decls, case):
     chk.notes.append(f'define_type {case}: {len(outs)} paths, iteration orders explored: {sorted(groups)}')
     bad = [o for o in outs if o.kind == 'bound']
     if bad: chk.notes.append(f'define_type {case}: {len(bad)} paths cut by bounds (outside the claim)')
-    if not pairs and case[1] and case[2]: raise Inconclusive(f'define_type {case}: only one iteration order explored ({sorted(groups)})')
+    if not pairs and sum(case[1]) >= 2: raise Inconclusive(f'define_type {case}: only one iteration order explored ({sorted(groups)})')
     def summary(group):
         """edge list of the post-state as a function of the input, for one iteration order (paths of one order are mutually exclusive)"""
         views = [(o.cond(), c06.View(eng, o.st, o.st.heap[gcell], decls, ARGS, P)) for o in group]
@@ -450,7 +450,8 @@ def body(chk):
     gf = chk.load('wac-graph'); gd = chk.decls('wac-graph')
     c06.IK_INSTANCE = gd.enum_index('ItemKind', 'Instance')
     tf = chk.load('wac-types'); td = chk.decls('wac-types')
-    parts = [(f'define_type{pt}', part_define_type, (gf, gd, pt)) for pt in c06.partitions('define_type', 3, 1)]
+    MMd = 2
+    parts = [(f'define_type{m_}', part_define_type, (gf, gd, ('defsN', m_, None))) for m_ in itertools.product((0, 1), repeat=MMd)]
     pf = chk.load('wac-parser'); pd = chk.decls('wac-parser')
     parts += [('aggregate', part_aggregate, (tf, td)), ('find_semver_compatible_interface', part_find_interface, (tf, td)), ('world_include', part_world_include, (pf, pd)),
               ('imports()', part_imports_listing, (gf, gd)), ('spread order', part_spread_order, (pf, pd))]
